@@ -1,9 +1,121 @@
-(* C07 — exported theorems only: each is closed by [exact] and followed by Print Assumptions. *)
-From Coq Require Import List ZArith Bool.
-From Verif Require Import C07.Model C07.Spec C07.Proofs_Res.
+(* C07 — exported theorems only: each is closed by [exact] and followed by Print Assumptions.
+   [exec ops] is the model state after the history [ops] (fold of [step] from the empty node);
+   [run ops] the per-operation observations that Extract.v prints and compares with the code;
+   [prop_code] the decision procedure that bin/check evaluates on the implementation's
+   observations. Hypotheses are boolean and decidable:
+     forallb op_wf ops   the environment's data are well-formed (non-negative amounts, distinct
+                         minors within one annotation);
+     env_ok_from         no environment event (inventory refresh, device deletion, foreign pod,
+                         annotation rewrite) itself leaves a device over-committed. *)
+From Coq Require Import List ZArith Bool Arith.
+From Verif Require Import C07.Model C07.Spec C07.Proofs_Res C07.Proofs_Ledger C07.Proofs_View
+  C07.Proofs_Alloc C07.Proofs_Allocate C07.Proofs_State C07.Proofs_Inv C07.Proofs_Main
+  C07.Proofs_Export.
+Import ListNotations.
 Open Scope Z_scope.
 
-Theorem c07_rget_rmap2 : forall f a b k, f None None = None ->
-  rget (rmap2 f a b) k = f (rget a k) (rget b k).
-Proof. exact rget_rmap2. Qed.
-Print Assumptions c07_rget_rmap2.
+(* the decision procedure accepts the model's observations of every finite history *)
+Theorem c07_main : forall ops, prop_code ops (run ops) = 0.
+Proof. exact prop_code_run. Qed.
+Print Assumptions c07_main.
+
+(* free = total - used (clamped at zero) for every device type, minor and resource *)
+Theorem c07_free_eq : forall ops t,
+  forallb op_wf ops = true -> free_eq (ledger_of (ledgers (exec ops)) t).
+Proof. exact free_eq_all. Qed.
+Print Assumptions c07_free_eq.
+
+(* in-use = sum of the live pods' recorded allocations *)
+Theorem c07_used_eq_sum : forall ops t,
+  forallb op_wf ops = true -> used_eq_sum (ledger_of (ledgers (exec ops)) t).
+Proof. exact used_eq_sum_all. Qed.
+Print Assumptions c07_used_eq_sum.
+
+(* no exposed resource of any device is over-committed, whatever the allocator, releases and
+   duplicate events do; only environment events could break it (partial: hypothesis env_ok_from) *)
+Theorem c07_no_overcommit_partial : forall ops t,
+  forallb op_wf ops = true -> env_ok_from init_state ops -> (t < 3)%nat ->
+  no_overcommit (ledger_of (ledgers (exec ops)) t).
+Proof. exact no_overcommit_all. Qed.
+Print Assumptions c07_no_overcommit_partial.
+
+(* ... and the unrestricted sentence is false of the faithful model (environment-driven) *)
+Theorem c07_refuted_unhealthy :
+  forallb op_wf unhealthy_ops = true /\
+  dval (total (ledger_of (ledgers (exec unhealthy_ops)) 1)) 0 0
+  < dval (used (ledger_of (ledgers (exec unhealthy_ops)) 1)) 0 0.
+Proof. exact refuted_unhealthy. Qed.
+Print Assumptions c07_refuted_unhealthy.
+Theorem c07_refuted_shrink :
+  forallb op_wf shrink_ops = true /\ no_overcommitb (ledger_of (ledgers (exec shrink_ops)) 1) = false.
+Proof. exact refuted_shrink. Qed.
+Print Assumptions c07_refuted_shrink.
+
+(* a successful allocation: per requested type exactly the desired number of distinct devices
+   of the Device CR, each with the request fitting its free amount in every exposed resource *)
+Theorem c07_alloc_sound : forall ops rq da t,
+  forallb op_wf ops = true -> (t < 3)%nat ->
+  allocate (ledgers (exec ops)) (infos (exec ops)) rq = ADone da ->
+  alloc_sound_t (ledgers (exec ops)) (infos (exec ops)) t rq (allocs_of da t) = true.
+Proof. exact alloc_sound_all. Qed.
+Print Assumptions c07_alloc_sound.
+Theorem c07_alloc_sound_meaning : forall ls infos t rq al per count sh,
+  treq_of rq t = TReq per count sh -> alloc_sound_t ls infos t rq al = true ->
+  length al = desired_count count /\ NoDup (map fst al) /\
+  forall a, In a al ->
+    In (fst a) (minors_of infos t) /\
+    (forall k T v, rget (ores (dget (total (ledger_of ls t)) (fst a))) k = Some T ->
+                   rget per k = Some v -> v <= dval (free (ledger_of ls t)) (fst a) k) /\
+    r0 (snd a) = r0 per /\ r1 (snd a) = r1 per.
+Proof. exact alloc_sound_t_spec. Qed.
+Print Assumptions c07_alloc_sound_meaning.
+
+(* a refusal: invalid request, no device of a requested type, or fewer eligible devices than desired *)
+Theorem c07_alloc_complete : forall ops rq code,
+  forallb op_wf ops = true ->
+  allocate (ledgers (exec ops)) (infos (exec ops)) rq = AFail code ->
+  (code = c_unresolvable /\
+   (existsb (fun t => is_invalid (treq_of rq t)) type_ids
+    || existsb (fun t => no_device_t (ledgers (exec ops)) t rq) type_ids) = true)
+  \/ (code = c_unsched /\
+      existsb (fun t => alloc_short_t (ledgers (exec ops)) (infos (exec ops)) t rq) type_ids = true).
+Proof. exact alloc_complete_all. Qed.
+Print Assumptions c07_alloc_complete.
+Theorem c07_alloc_short_meaning : forall ls infos t rq,
+  alloc_short_t ls infos t rq = true ->
+  exists per count sh, treq_of rq t = TReq per count sh /\
+    (eligible_count (ledger_of ls t) (minors_of infos t) per < desired_count count)%nat.
+Proof. exact alloc_short_t_spec. Qed.
+Print Assumptions c07_alloc_short_meaning.
+
+(* duplicate add events, deletes of unknown pods and refused scheduling attempts change no ledger *)
+Theorem c07_dup_add_noop : forall ops o t,
+  is_frame o (o_code (snd (step (exec ops) o))) = true -> (t < 3)%nat ->
+  ledger_of (ledgers (exec (ops ++ [o]))) t = ledger_of (ledgers (exec ops)) t.
+Proof. exact frame_all. Qed.
+Print Assumptions c07_dup_add_noop.
+
+(* the decision procedure is sound for the ledger clauses *)
+Theorem c07_check_sound : forall k o out ls t,
+  check_step k o (out, ls) = 0 -> k_wf k && op_wf o = true -> (t < 3)%nat ->
+  free_eq (ledger_of ls t) /\ used_eq_sum (ledger_of ls t) /\
+  (k_env k && (negb (is_env_op o) || inv_okb ls) = true -> no_overcommit (ledger_of ls t)).
+Proof. exact check_step_sound. Qed.
+Print Assumptions c07_check_sound.
+
+(* the allocator ignores request keys a device does not expose (limit of the exposed-key reading) *)
+Theorem c07_unexposed_key_granted :
+  allocate (ledgers (exec unexposed_ops)) (infos (exec unexposed_ops)) (req_koord 50)
+  = ADone [[(0%nat, mkRes (Some 50) (Some 50) (Some 8000))]; []; []].
+Proof. exact unexposed_granted. Qed.
+Print Assumptions c07_unexposed_key_granted.
+
+(* non-vacuity: a well-formed history satisfying the environment hypothesis on which two pods are
+   granted distinct GPUs, a two-GPU request is refused in between, and a pod is released (and
+   released again) *)
+Example c07_demo_hyps : forallb op_wf demo_ops = true /\ nontrivial demo_ops = true.
+Proof. vm_compute. split; reflexivity. Qed.
+Example c07_demo_env : env_ok_from init_state demo_ops.
+Proof. vm_compute. repeat split; auto; discriminate. Qed.
+Example c07_demo_codes : map (fun ob => o_code (fst ob)) (run demo_ops) = [0; 0; 1; 0; 0; 0; -1].
+Proof. vm_compute. reflexivity. Qed.
